@@ -322,4 +322,22 @@ def C03(tier, seed):
     }
 
 
-REGISTRY = {"C03": C03, "C02": C02, "C17": C17, "C11": C11, "C20": C20, "C09": C09, "C19": C19, "C18": C18, "C13": C13, "C07": C07, "C14": C14, "C15": C15}
+def C12(tier, seed):
+    def st(part, req):
+        return Stage(part, ("Gen_Coverage", "Gen_Coverage.cfg"), ("Trace_Coverage", "Trace_Coverage.cfg"),
+                     env={"PART": part}, required=req, shards=6)
+    prop = st("prop", ["C12.prop_row", "C12.prop_pointwise", "C12.prop_mean"])
+    prop.mc = [("MC_Binomial", "MC_Binomial.cfg", {}, 1), ("MC_BigNum", "MC_BigNum.cfg", {}, 1)]
+    return {
+        "stages": [prop, st("quant", ["C12.quant_pointwise", "C12.quant_mean"])],
+        "exhaustive": True,
+        "rule": "n in {20,30,50,100,200} (+400,1000,2000 thorough) x levels {0.8,0.9,0.95,0.99} x 3 kinds: the interval of EVERY k (resp. the "
+                "rank interval of every q = a/200) is recorded; for every grid point p = a/200 with n p, n(1-p) >= 10 the exact binomial coverage "
+                "is summed over all outcomes k by TLC (integers of thousands of bits) and compared with the nominal level: pointwise "
+                "(L - cov) sqrt(m) <= C(L, kind) and |mean - L| <= MeanSlack(n). Non-trivial = every grid point (distinct acceptance sets).",
+        "assumptions": NUM_TRUST[:2] + [NUM_TRUST[3], "the slack constants C(L, kind) and MeanSlack(n) are part of the specification, calibrated against the mathematical "
+                                                     "Wilson interval (DESIGN.md section 4, C12)"],
+    }
+
+
+REGISTRY = {"C12": C12, "C03": C03, "C02": C02, "C17": C17, "C11": C11, "C20": C20, "C09": C09, "C19": C19, "C18": C18, "C13": C13, "C07": C07, "C14": C14, "C15": C15}
